@@ -760,6 +760,80 @@ func ruleVD10(c *Ctx) {
 		}
 		c.check(okAll, cn, construct, pos, "collision sets are the loaded graph's ids (extended by ids minted in this command) and its tombstones", why+": a duplicate or pruned id can be issued")
 	}
+	// a command that mints several ids: each one is in the next mint's collision set before that mint runs
+	byFn := map[*ssa.Function][]*ssa.Call{}
+	var fnOrder []*ssa.Function
+	for _, cs := range c.callers[ns] {
+		if cv, ok := cs.Call.(*ssa.Call); ok {
+			if byFn[cs.Fn] == nil {
+				fnOrder = append(fnOrder, cs.Fn)
+			}
+			byFn[cs.Fn] = append(byFn[cs.Fn], cv)
+		}
+	}
+	for _, f := range fnOrder {
+		mints := byFn[f]
+		for i, m := range mints {
+			for j, m2 := range mints {
+				// is m2 executed after m on some path?
+				after := false
+				if m == m2 {
+					after = reachesSelf(m.Block())
+				} else if m.Block() == m2.Block() {
+					after = instrIndex(m) < instrIndex(m2) || reachesSelf(m.Block())
+				} else {
+					after = reach(m.Block(), nil, nil)[m2.Block()]
+				}
+				if !after {
+					continue
+				}
+				// the live-id set handed to m2
+				var set ssa.Value
+				for k, prm := range ns.Params {
+					if _, isMap := prm.Type().Underlying().(*types.Map); isMap && !strings.Contains(prm.Type().String(), "TombstoneInfo") && k < len(m2.Call.Args) {
+						set = m2.Call.Args[k]
+					}
+				}
+				if set == nil {
+					continue
+				}
+				var ublocks = map[*ssa.BasicBlock]bool{}
+				sameBlockAfter := false
+				eachInstr(f, func(r instrRef) {
+					mu, ok := r.In.(*ssa.MapUpdate)
+					if !ok {
+						return
+					}
+					if resolve(mu.Map) != resolve(set) && c.canon(mu.Map) != c.canon(set) {
+						return
+					}
+					if cl, idx := callOf(resolve(mu.Key)); cl != m || idx > 0 {
+						return
+					}
+					if mu.Block() == m.Block() && instrIndex(mu) > instrIndex(m) {
+						sameBlockAfter = true
+					}
+					ublocks[mu.Block()] = true
+				})
+				okRec := sameBlockAfter
+				if !okRec && len(ublocks) > 0 {
+					okRec = true
+					if m.Block() == m2.Block() {
+						for _, sb := range m.Block().Succs {
+							if !ublocks[sb] && reach(sb, nil, ublocks)[m.Block()] {
+								okRec = false
+							}
+						}
+					} else if reach(m.Block(), nil, ublocks)[m2.Block()] {
+						okRec = false
+					}
+				}
+				c.check(okRec, c.Name(f), fmt.Sprintf("minted-id-excluded mint#%d->mint#%d", i+1, j+1), c.Pos(m2.Pos()),
+					"the id minted at "+c.Pos(m.Pos())+" is entered into this mint's collision set on every path between the two",
+					"the id minted at "+c.Pos(m.Pos())+" is not in the collision set ("+c.canon(set)+") when this id is drawn: the same command can issue one id twice (an epic and its task, two tasks of one plan)")
+			}
+		}
+	}
 }
 
 // ------------------------------------------------------------------ VD11
@@ -1049,6 +1123,43 @@ func ruleVD12(c *Ctx) {
 				cl, idx := callOf(a.X)
 				return cl == pv && idx == 1
 			})
+			// `verr := parse(); if verr == nil { verr = input.Validate() }; if verr != nil { return }`: one variable carries
+			// both outcomes. The merged value is nil only if it is the validation's (the parse error flows into the merge
+			// on its own non-nil edge), so its nil edge stands for "parsed and validated"
+			merged := edgesWhere(e, func(a Atom, holds bool) bool {
+				if a.Kind != "nil" || !holds {
+					return false
+				}
+				ph, ok := strip(a.X).(*ssa.Phi)
+				if !ok {
+					return false
+				}
+				sawVal := false
+				for i, ev := range ph.Edges {
+					ev = strip(ev)
+					if ev == ssa.Value(val) {
+						sawVal = true
+						continue
+					}
+					if cl, idx := callOf(ev); cl == pv && idx == 1 && i < len(ph.Block().Preds) {
+						// the parse error arrives over the edge on which it is not nil
+						pred := ph.Block().Preds[i]
+						okEdge := false
+						for _, bf := range directFacts(e) {
+							if bf.E.From == pred && bf.E.To() == ph.Block() && bf.A.Kind == "nil" && !bf.Holds {
+								if c2, i2 := callOf(bf.A.X); c2 == pv && i2 == 1 {
+									okEdge = true
+								}
+							}
+						}
+						if okEdge {
+							continue
+						}
+					}
+					return false
+				}
+				return sawVal
+			})
 			bad := ""
 			nCommit := 0
 			for _, call := range callsIn(e) {
@@ -1058,6 +1169,9 @@ func ruleVD12(c *Ctx) {
 					continue
 				}
 				nCommit++
+				if len(merged) > 0 && mustPassEdges(e, call.Block(), merged) {
+					continue
+				}
 				if !mustPassEdges(e, call.Block(), gate) || !mustPassEdges(e, call.Block(), parseGate) {
 					bad = fmt.Sprintf("commit %s at %s is reachable from the parse without the validation having passed", c.Name(cal), c.Pos(call.Pos()))
 				}
